@@ -14,6 +14,13 @@ use std::path::{Path, PathBuf};
 
 pub const GEN_STREAM: u64 = 4242;
 
+pub const MODEL_STREAM: u64 = 4343;
+
+pub fn model_program_for(seed: u64, index: u64) -> lang::gen::ModelProg {
+    let mut rng = Rng::new(derive_seed(seed, MODEL_STREAM, index));
+    lang::gen::gen_model_program(&mut rng)
+}
+
 pub fn program_for(seed: u64, index: u64) -> (Program, GenKnobs) {
     let mut rng = Rng::new(derive_seed(seed, GEN_STREAM, index));
     let knobs = GenKnobs::draw(&mut rng);
@@ -171,6 +178,25 @@ pub fn gen_driver(p: &Program, text: &str, stem: &str) -> Result<String, String>
         w,
         "impl {struct_name} {{\n#[allow(unused_mut)]\nfn verif_run_rules(&mut self) -> Vec<(&'static str, ModelDelta)> {{\nlet mut out = Vec::new();\n{groups}\nout\n}}\n}}"
     );
+    let topo_call = match text.find("eqlog_runtime::morphism_toposort(") {
+        Some(i) => {
+            let rest = &text[i..];
+            let end = rest.find(")\n.expect(").ok_or("cannot find the end of the morphism_toposort call")?;
+            Some(rest[..end + 1].to_string())
+        }
+        None => None,
+    };
+    match &topo_call {
+        Some(call) => {
+            let _ = writeln!(
+                w,
+                "impl {struct_name} {{\nfn verif_toposort(&self) -> Option<Result<Vec<(u32, u32, u32)>, ()>> {{\nSome({call}.map(|v| v.iter().map(|m| (m.morph, m.dom, m.cod)).collect()).map_err(|_| ()))\n}}\n}}"
+            );
+        }
+        None => {
+            let _ = writeln!(w, "impl {struct_name} {{\nfn verif_toposort(&self) -> Option<Result<Vec<(u32, u32, u32)>, ()>> {{ None }}\n}}");
+        }
+    }
     let _ = writeln!(w, "#[allow(unused_variables, unreachable_code, unused_mut)]\nimpl mdrv::DynModel for Drv {{");
 
     // new_el
@@ -353,6 +379,7 @@ pub fn gen_driver(p: &Program, text: &str, stem: &str) -> Result<String, String>
     }
     let _ = writeln!(w, "] }}");
     let _ = writeln!(w, "fn priv_is_dirty(&self) -> bool {{ self.0.is_dirty() }}");
+    let _ = writeln!(w, "fn priv_toposort(&self) -> Option<Result<Vec<(u32, u32, u32)>, ()>> {{ self.0.verif_toposort() }}");
     let _ = writeln!(w, "fn priv_move_new_to_old(&mut self) {{ self.0.move_new_to_old() }}");
     let _ = writeln!(w, "fn priv_canonicalize(&mut self) {{ self.0.canonicalize() }}");
     let _ = writeln!(
@@ -429,8 +456,16 @@ pub fn main_impl() {
                 std::process::exit(2);
             }
         }
+        "compcorpus" => {
+            let out = PathBuf::from(a.get("out").expect("--out"));
+            let rlib = PathBuf::from(a.get("runtime-rlib").expect("--runtime-rlib"));
+            if let Err(e) = comp_corpus(seed, first, count, &out, &rlib) {
+                eprintln!("vgen: {e}");
+                std::process::exit(2);
+            }
+        }
         _ => {
-            eprintln!("usage: vgen probe|corpus ...");
+            eprintln!("usage: vgen probe|corpus|compcorpus ...");
             std::process::exit(2);
         }
     }
@@ -492,6 +527,34 @@ fn corpus(seed: u64, first: usize, count: usize, out: &Path, exclude: &str) -> R
                     diagnostics.push(format!("rejected {i}: {e}"));
                 }
             }
+        }
+    }
+    let n_models: usize = std::env::var("VGEN_MODELS").ok().and_then(|s| s.parse().ok()).unwrap_or(count / 4);
+    for i in 0..n_models * 2 {
+        if items.iter().filter(|it| it.origin.starts_with("genmodel")).count() >= n_models {
+            break;
+        }
+        let mp = model_program_for(seed, i as u64);
+        let stem = format!("pm{}", letters(i));
+        if excluded.contains(&stem.as_str()) {
+            continue;
+        }
+        match compile_module(&tmp, &stem, &mp.text) {
+            Ok(module) => match gen_driver(&mp.program, &module, &stem) {
+                Ok(driver) => {
+                    write_if_changed(&gen_dir.join(format!("{stem}.eql")), &mp.text)?;
+                    write_if_changed(&gen_dir.join(format!("{stem}.eql.rs")), &module)?;
+                    write_if_changed(&gen_dir.join(format!("{stem}.driver.rs")), &driver)?;
+                    items.push(CorpusItem {
+                        stem,
+                        text: mp.text.clone(),
+                        origin: format!("genmodel:{seed}:{i}"),
+                        program: mp.program,
+                    });
+                }
+                Err(e) => return Err(format!("driver generation failed for {stem}: {e}")),
+            },
+            Err(e) => diagnostics.push(format!("model program {i} rejected: {e}")),
         }
     }
     let _ = std::fs::remove_dir_all(&tmp);
@@ -565,5 +628,122 @@ fn emit_workspace(out: &Path, items: &[CorpusItem]) -> Result<(), String> {
     )?;
     let lock = std::fs::read_to_string(format!("{verif}/Cargo.lock")).map_err(|e| e.to_string())?;
     write_if_changed(&out.join("Cargo.lock"), &lock)?;
+    Ok(())
+}
+
+/// C19: the same programs built through the component path of the real driver (real rayon, real
+/// rustc per rule component), wrapped into a crate that links the component libraries.
+fn comp_corpus(seed: u64, first: usize, count: usize, out: &Path, runtime_rlib: &Path) -> Result<(), String> {
+    let verif = std::env::var("VERIF_DIR").unwrap_or_else(|_| "/verif".into());
+    let gen_dir = out.join("gen");
+    std::fs::create_dir_all(&gen_dir).map_err(|e| e.to_string())?;
+    let mut items: Vec<CorpusItem> = Vec::new();
+    let mut idx = first;
+    let mut tried = 0;
+    while items.len() < count && tried < count * 6 {
+        let i = idx;
+        idx += 1;
+        tried += 1;
+        let (p, _) = program_for(seed, i as u64);
+        if p.rules.is_empty() {
+            continue;
+        }
+        let stem = format!("pg{}", letters(i));
+        let text = lang::print::program(&p);
+        let dir = gen_dir.join(&stem);
+        let in_dir = dir.join("in");
+        std::fs::create_dir_all(&in_dir).map_err(|e| e.to_string())?;
+        write_if_changed(&in_dir.join(format!("{stem}.eql")), &text)?;
+        let config = eqlog::Config {
+            in_dir,
+            out_dir: dir.join("out"),
+            component_build: Some(eqlog::ComponentConfig {
+                component_out_dir: dir.join("comp"),
+                rustc_path: PathBuf::from("rustc"),
+                runtime_rlib_path: runtime_rlib.to_path_buf(),
+                debug: false,
+                opt_level: "0".to_string(),
+            }),
+        };
+        let r = std::panic::catch_unwind(std::panic::AssertUnwindSafe(|| eqlog::process(&config).map_err(|e| format!("{e}"))));
+        match r {
+            Ok(Ok(())) => {}
+            // rejected programs simply are not part of either corpus
+            Ok(Err(_)) | Err(_) => continue,
+        }
+        let module = std::fs::read_to_string(dir.join("out").join(format!("{stem}.eql.rs"))).map_err(|e| e.to_string())?;
+        let driver = gen_driver(&p, &module, &stem)?;
+        write_if_changed(&dir.join(format!("{stem}.driver.rs")), &driver)?;
+        items.push(CorpusItem {
+            stem,
+            text,
+            origin: format!("gen:{seed}:{i}"),
+            program: p,
+        });
+    }
+    // one crate that includes the component-build modules and links the component libraries
+    let dir = out.join("pgc");
+    std::fs::create_dir_all(dir.join("src")).map_err(|e| e.to_string())?;
+    write_if_changed(
+        &dir.join("Cargo.toml"),
+        &format!(
+            "[package]\nname = \"pgc\"\nversion = \"0.1.0\"\nedition = \"2024\"\nbuild = \"build.rs\"\n\n[dependencies]\neqlog-runtime = {{ path = \"/repo/eqlog-runtime\" }}\nmdrv = {{ path = \"{verif}/modelsim/mdrv\" }}\n"
+        ),
+    )?;
+    let mut build_rs = String::from("fn main() {\n");
+    let mut lib = String::from("#![allow(warnings)]\n");
+    let mut entries = String::from("pub fn entries() -> Vec<mdrv::Entry> { vec![\n");
+    for it in &items {
+        let comp_dir = gen_dir.join(&it.stem).join("comp").join(format!("{}.eql", it.stem));
+        let _ = writeln!(build_rs, "    println!(\"cargo:rustc-link-search=native={}\");", comp_dir.display());
+        let mut libs: Vec<String> = std::fs::read_dir(&comp_dir)
+            .map_err(|e| format!("{}: {e}", comp_dir.display()))?
+            .filter_map(|e| e.ok())
+            .map(|e| e.file_name().to_string_lossy().to_string())
+            .filter(|n| n.ends_with(".rlib"))
+            .collect();
+        libs.sort();
+        for l in libs {
+            let _ = writeln!(build_rs, "    println!(\"cargo:rustc-link-lib=static:+verbatim={l}\");");
+        }
+        let base = gen_dir.join(&it.stem);
+        let _ = writeln!(
+            lib,
+            "pub mod {stem} {{ include!(\"{m}\"); include!(\"{d}\"); }}",
+            stem = it.stem,
+            m = base.join("out").join(format!("{}.eql.rs", it.stem)).display(),
+            d = base.join(format!("{}.driver.rs", it.stem)).display()
+        );
+        let _ = writeln!(
+            entries,
+            "mdrv::Entry {{ name: \"{stem}\", source: include_str!(\"{src}\"), origin: \"{origin}\", new: {stem}::new_model }},",
+            stem = it.stem,
+            src = base.join("in").join(format!("{}.eql", it.stem)).display(),
+            origin = it.origin
+        );
+    }
+    build_rs.push_str("}\n");
+    entries.push_str("] }\n");
+    lib.push_str(&entries);
+    write_if_changed(&dir.join("build.rs"), &build_rs)?;
+    write_if_changed(&dir.join("src/lib.rs"), &lib)?;
+    let bin = out.join("msbincomp");
+    std::fs::create_dir_all(bin.join("src")).map_err(|e| e.to_string())?;
+    write_if_changed(
+        &bin.join("Cargo.toml"),
+        &format!(
+            "[package]\nname = \"msbincomp\"\nversion = \"0.1.0\"\nedition = \"2021\"\n\n[dependencies]\nmdrv = {{ path = \"{verif}/modelsim/mdrv\" }}\nmodelsim-sim = {{ path = \"{verif}/modelsim/sim\" }}\npgc = {{ path = \"../pgc\" }}\n"
+        ),
+    )?;
+    write_if_changed(&bin.join("src/main.rs"), "fn main() {\n    modelsim_sim::main_with(pgc::entries());\n}\n")?;
+    write_if_changed(
+        &out.join("Cargo.toml"),
+        "[workspace]\nresolver = \"2\"\nmembers = [\"pgc\", \"msbincomp\"]\n\n[profile.dev]\ndebug = false\nincremental = false\n\n[profile.dev.package.eqlog-runtime]\nopt-level = 2\n[profile.dev.package.modelsim-sim]\nopt-level = 2\n[profile.dev.package.lang]\nopt-level = 2\n[profile.dev.package.simcore]\nopt-level = 2\n",
+    )?;
+    std::fs::create_dir_all(out.join(".cargo")).map_err(|e| e.to_string())?;
+    write_if_changed(&out.join(".cargo/config.toml"), "[net]\noffline = true\n\n[build]\nrustflags = [\"--cfg\", \"eqlog_verif\"]\n")?;
+    let lock = std::fs::read_to_string(format!("{verif}/Cargo.lock")).map_err(|e| e.to_string())?;
+    write_if_changed(&out.join("Cargo.lock"), &lock)?;
+    println!("compcorpus: {} programs ({} tried)", items.len(), tried);
     Ok(())
 }
